@@ -198,6 +198,17 @@ func (p *Prog) method(pkgSuffix, typeName, name string) *ssa.Function {
 			markAnchor(f)
 			return f
 		}
+		// … or that is handed the one field of the receiver it used (a callback) in its place
+		if f := sp.Func(name); f != nil && len(f.Params) > 0 {
+			if st, isStruct := named.Underlying().(*types.Struct); isStruct {
+				for i := 0; i < st.NumFields(); i++ {
+					if types.Identical(st.Field(i).Type(), f.Params[0].Type()) || (f.TypeParams().Len() > 0 && sameShape(st.Field(i).Type(), f.Params[0].Type())) {
+						markAnchor(f)
+						return f
+					}
+				}
+			}
+		}
 	}
 	return nil
 }
@@ -511,4 +522,11 @@ func fnBase(f *ssa.Function) string {
 		return ""
 	}
 	return originFn(f).Name()
+}
+
+// sameShape: two (possibly generic) function types with the same number of parameters and results.
+func sameShape(a, b types.Type) bool {
+	sa, ok1 := a.Underlying().(*types.Signature)
+	sb, ok2 := b.Underlying().(*types.Signature)
+	return ok1 && ok2 && sa.Params().Len() == sb.Params().Len() && sa.Results().Len() == sb.Results().Len()
 }
